@@ -1005,6 +1005,17 @@ fn gen_c07(r: &mut Rng, seed: u64) -> Scenario {
             tags.push("app-unreadable-perms".into());
         }
         let start = b.add_anon(pages * 0x1000, perms, r.next(), 1);
+        if perms == "rw-p" && len > 1 && r.chance(1, 8) {
+            // a region that starts in readable pages and continues into pages of the same arena that
+            // the target itself cannot access (reserved, not yet committed): still the target's memory
+            let tail = b.add_anon(0x2000, *r.pick(&["---p", "-w-p"]), r.next(), 0);
+            let into = r.range(1, (len - 1).min(0x1800));
+            opts.app_memory.push((tail + into - len, len));
+            if !tags.contains(&"app-straddles-protection".to_string()) {
+                tags.push("app-straddles-protection".into());
+            }
+            continue;
+        }
         let ptr = match r.below(6) {
             0 => start,
             1 => start + pages * 0x1000 - len,     // ends exactly at the mapping end (hole follows)
